@@ -2,5 +2,11 @@ import cProfile, pstats, sys
 from mmverif import prove
 from mmverif.engine import driver
 prove.load_sidecar(sys.argv[1])
-cProfile.run("u = driver.verify_function(sys.argv[1], sys.argv[2])", '/tmp/prof.out')
-p = pstats.Stats('/tmp/prof.out'); p.sort_stats('cumulative').print_stats(35)
+driver.MAX_PATHS = int(sys.argv[3]) if len(sys.argv) > 3 else 4000
+def run():
+  try:
+    driver.verify_function(sys.argv[1], sys.argv[2])
+  except Exception as e:
+    print('stopped:', str(e)[:100])
+cProfile.run("run()", '/tmp/prof.out')
+p = pstats.Stats('/tmp/prof.out'); p.sort_stats('cumulative').print_stats(45)
